@@ -126,6 +126,12 @@ class EncEngine:
             if only is not None:
                 res["status"] = "vacuous"
                 return res
+            if exclude is not None:
+                # the whole skeleton lies inside the region of an open known finding (which is re-confirmed on its own)
+                res["status"] = "held"
+                res["detail"] = "entirely inside the excluded region of a known finding: nothing left to decide here"
+                res["excluded_entirely"] = True
+                return res
             res["status"] = "machinery"
             res["detail"] = "vacuity: witness not reachable (assumptions unsatisfiable or bound too small)"
             return res
